@@ -425,6 +425,26 @@ def adapted(log, j, fault):
     return cc in ADAPT.get(cmd, ()) and reissued(log, j)
 
 
+# record / data reads: an operation that starts over after a renewed reservation reads them again, which changes nothing
+# on the BMC (the value read is compared separately, as the operation's result)
+REREAD = {(0x0a, 0x43), (0x0a, 0x23), (0x04, 0x21), (0x0a, 0x11)}
+
+
+def accepted(log, faults):
+    """the requests the BMC accepted, without reservations, status polls and record reads: (netfn, cmd, data hex); a
+    request answered with an injected code counts only when that code means 'accepted, in progress' (HPM 0x80)"""
+    out = []
+    for i, x in enumerate(log):
+        cmd = (x.netfn, x.cmd)
+        if cmd in AUX or cmd == POLL or cmd in REREAD:
+            continue
+        f = faults.get(i)
+        if f is not None and not (f[0] == 0x80 and cmd in HPM_LONG):
+            continue
+        out.append('%02x.%02x %s' % (x.netfn, x.cmd, x.data.hex()))
+    return out
+
+
 def reissued(log, k):
     """was the request refused at index k issued again later (same command, same length, at most 3 bytes
     differing: reservation id / reduced count)?"""
@@ -436,7 +456,7 @@ def reissued(log, k):
     return False
 
 
-def judge(opname, base, out, log, faults, shape=None):
+def judge(opname, base, out, log, faults, shape=None, blog=None):
     """None when the property holds on this run, else (kind, text)"""
     ks = sorted(faults)
     consumed = [k for k in ks if k < len(log)]
@@ -480,6 +500,17 @@ def judge(opname, base, out, log, faults, shape=None):
     evid = all(adapted(log, j, faults[j]) for j in consumed)
     if base[0] == 'ok' and out[1] == base[1]:
         if evid:
+            # "completes with the same result it produces without the fault" includes what the BMC was made to do:
+            # when the adaptation does not change the request parameters (busy / timeout retry, reservation renewal,
+            # HPM long-duration polling - not the read-size back-off), the requests the BMC accepted must be exactly
+            # those of the fault-free run on the same content
+            if blog is not None and all(faults[j][0] not in (C8, C9, CA) for j in consumed):
+                got, want = accepted(log, faults), accepted(blog, {})
+                if got != want:
+                    i = next((n for n, (a, b) in enumerate(zip(got, want)) if a != b), min(len(got), len(want)))
+                    return ('different-requests', 'completed normally after request %d was answered 0x%02x, but the BMC was then '
+                            'sent other requests than without the fault: accepted request #%d is %s instead of %s'
+                            % (k, cc, i, got[i] if i < len(got) else None, want[i] if i < len(want) else None))
             return None
         return ('swallowed', 'completed normally (result as without the fault) although request %d was answered '
                 '0x%02x (%s) and no documented retry / adaptation for that code took place' % (k, cc, mode))
@@ -514,7 +545,7 @@ def oracle_fault(inp):
     if not faults:
         return baseline_problem(inp['op'], base)
     out, log = run_case(inp['op'], faults, shape)
-    r = judge(inp['op'], base, out, log, faults, shape)
+    r = judge(inp['op'], base, out, log, faults, shape, blog)
     return None if r is None else '%s: %s' % (inp['op'], r[1])
 
 
@@ -676,7 +707,7 @@ def run(ctx):
                     out, log = run_case(opname, faults)
                     res.evaluations += 1
                     D.add((opname, k, cc, mode), True, mode)
-                    r = judge(opname, base, out, log, faults)
+                    r = judge(opname, base, out, log, faults, None, blog)
                     if r is not None:
                         violation(vkey(r[0], opname, log, k), '%s: %s' % (opname, r[1]),
                                   {'op': opname, 'faults': {str(k): [cc, mode]}})
@@ -723,7 +754,7 @@ def run(ctx):
                         out, log = run_case(opname, faults, shape)
                         res.evaluations += 1
                         D.add((opname, json.dumps(shape, sort_keys=True), k, cc, mode), True, 'content-shape')
-                        r = judge(opname, sbase, out, log, faults, shape)
+                        r = judge(opname, sbase, out, log, faults, shape, slog)
                         if r is not None:
                             violation(vkey(r[0], opname, log, k), '%s (device content %s): %s' % (opname, json.dumps(shape), r[1]),
                                       {'op': opname, 'faults': {str(k): [cc, mode]}, 'shape': shape})
